@@ -44,6 +44,7 @@ import tempfile
 
 import repex_tie as T
 from c06_support import legs
+from props import c06_mc
 
 CORPUS_IN_RUN = False
 SCRATCH = "/var/tmp"
@@ -300,6 +301,12 @@ def multi_ops(d, fam, W, policy, kills, hs=None):
     return ops
 
 
+def mc_regime(fam):
+    """configurations in which `self.prob` can be a Monte-Carlo estimate: an idle block of more than 12 rows needs at
+    least 14 ensembles, and rows that are not constant need wire-fencing (high-acceptance) weights"""
+    return fam["nintf"] >= 14 and "wf" in fam["moves"]
+
+
 def fam_tag(fam):
     cap = "" if fam.get("cap") is None else f"-cap{fam['cap']}"
     opts = "".join(f"-{k}={v}" for k, v in sorted((fam.get("opts") or {}).items()))
@@ -354,6 +361,11 @@ def check_w1(ctx, fam, ref, d, kind, chain, res):
                    "C06:restart:files-differ")
         what = (what + "; " if what else "") + f"{diff['file']} line {diff['line']}: {diff['other']!r} vs {diff['ref']!r}"
     if sig is not None:
+        if mc_regime(fam) and not straight:
+            # ≥ 14 ensembles with wire fencing: idle blocks of more than 12 rows that are not row-constant go to
+            # `random_prob` (Monte-Carlo on the scheduler's stream): outside the model (c06_mc), open observation
+            c06_mc.judge(ctx, c06_mc.SIG_MC, f"{fam_tag(fam)} {kind} {list(chain)} [{sig}]: {what}", rep)
+            return False
         ctx.fail(sig, f"{fam_tag(fam)} {kind} {list(chain)}: {what}", rep)
         return False
     if is_meng(fam):
@@ -551,6 +563,11 @@ def plan(ctx):
             multi.append((dict(lat, seed=seed, N=10), 3, "rand:7", ()))
         # fewer steps left than workers at the restart, and fresh runs shorter than the number of workers
         multi.append((dict(lat, seed=seed, N=12), 3, "lifo", (11,)))
+        # a restarted process that dies before its first completion (all its jobs — re-issued and fresh — are lost, the
+        # file on disk is still the one of the first stop): the next process re-issues the same record again
+        kk = rng.randint(2, 8)
+        multi.append((dict(lat, seed=seed, N=12), 3, "lifo", (kk, kk)))
+        multi.append((dict(lat5, seed=seed, N=12), 4, "fifo", (kk, kk, kk + 2)))
         multi.append((dict(lat5, seed=seed, N=12), 4, f"rand:{rng.randrange(10 ** 9)}", (5, 10)))
         multi.append((dict(lat, seed=seed, N=2), 3, "fifo", ()))
         multi.append((dict(lat5, seed=seed, N=3), 4, "lifo", (1,)))
@@ -1058,6 +1075,10 @@ def model_side(ctx, shapes):
         label = f"n_ens={n_ens} workers={W} steps={steps} seed={seed} wf={wf} restarts={list(restarts)} ctxseed={ctx.seed}"
         sim = T.run_history(ctx, n_ens, W, steps, seed=seed, wf=wf, restarts=tuple(restarts), rng=random.Random(label))
         chain = sim.previous + [sim]
+        for a, b in zip(chain, chain[1:]):
+            sa = getattr(a, "snaps", None) or []
+            if a.error is None and sa and sa[-1][0] == "treat" and a.image is not None:
+                a._c06_next = (b,)
         for sm in chain:
             if sm.error is not None:
                 ctx.fail("C06:model-shape:sampler-raised", f"{label}: {type(sm.error).__name__}: {sm.error}",
@@ -1086,15 +1107,90 @@ def model_side(ctx, shapes):
                              {"kind": "model-shape", "params": [n_ens, W, steps, seed, wf, list(restarts)], "ctxseed": ctx.seed})
         ctx.count(1, kind="model-shape", workers=W, restarts=len(restarts))
     if ctx._driver_ok:
-        # every segment starts with `init`, which resets the driver's state: one driver process for all of them
-        answers = ctx.driver([l for sm, _ in outs for l in sm.lines])
-        pos = 0
+        # every segment starts with `init`, which resets the driver's state: one driver process for all of them.
+        # A segment that ended at a stop (last op: the `treat_output` that wrote the restart file) is followed by the
+        # request `restorenow`: the driver answers the state its OWN `restoreNow (persist s)` rebuilds — the function every
+        # restart theorem of Props/C06 is about — which must be what the real restart (REPEX_state.__init__ with set_rgen
+        # + the load_paths sequence, from the REAL restart.toml) built: `restore_vs_real`.
+        nxt = {}
+        for (a, _), (b, lb) in zip(outs, outs[1:]):
+            if b in (a.__dict__.get("_c06_next") or ()):
+                nxt[id(a)] = b
+        batch, spans = [], []
         for sm, label in outs:
-            T.compare(ctx, sm, answers[pos:pos + len(sm.lines)], label)
-            pos += len(sm.lines)
+            extra = ["image", "restorenow"] if id(sm) in nxt else []
+            spans.append((len(batch), len(sm.lines), bool(extra)))
+            batch += list(sm.lines) + extra
+        answers = ctx.driver(batch)
+        for (sm, label), (pos, n, has) in zip(outs, spans):
+            bad = T.compare(ctx, sm, answers[pos:pos + n], label)
+            if has and not bad:
+                image_vs_file(ctx, answers[pos + n], sm, label)
+                restore_vs_real(ctx, answers[pos + n + 1], sm, nxt[id(sm)], label)
     else:
         ctx.extra["model_side"] = "driver not available"
     return len(outs)
+
+
+def image_vs_file(ctx, model_ans, sm, label):
+    """the model's `persist s` at a stop against the [current] table of the REAL restart.toml that `treat_output` wrote"""
+    cur = sm.image or {}
+    md = T.parse_dump(model_ans)
+    ctx.count(1, kind="image-model-vs-file", workers=sm.workers)
+    locked = cur.get("locked") or []
+    real = {"active": ",".join(str(a) for a in cur.get("active", [])),
+            "locked": ";".join(",".join(str(int(e)) for e in t[0]) + ":" + ",".join(str(int(p)) for p in t[1]) for t in locked),
+            "lockedord": ",".join(str(int(t[2])) for t in locked if len(t) > 2),
+            "cstep": str(cur.get("cstep")), "trajnum": str(cur.get("traj_num")),
+            "spawnedrec": str(cur.get("spawned", "-")), "seed": str(sm.cfg["simulation"]["seed"])}
+    case = {"history": label, "op": "image (model: persist s) vs the restart.toml on disk"}
+    for k, rv in real.items():
+        if md.get(k, "<missing>") != rv:
+            ctx.disagree(dict(case, field=k), rv, md.get(k))
+            return
+    # fractions: the file holds them keyed by path number (as a map), decimal strings of long doubles
+    rf = {str(k): [float(x) for x in v] for k, v in (cur.get("frac") or {}).items()}
+    mf = {}
+    for part in (md.get("frac") or "").split(";"):
+        if part:
+            k, v = part.split(":", 1)
+            mf[k] = v.split(",")
+    if set(rf) != set(mf) or any(len(rf[k]) != len(mf[k]) or not all(T._num_eq(repr(a), b) for a, b in zip(rf[k], mf[k]))
+                                 for k in rf):
+        ctx.disagree(dict(case, field="frac"), cur.get("frac"), md.get("frac"))
+
+
+RESTORE_KEYS = ("W", "trajs", "locks", "locked", "locked0", "toinit", "cstep", "trajnum", "frac", "occ", "lockedord")
+
+
+def restore_vs_real(ctx, model_ans, sm_prev, sm_next, label):
+    """the model's `restoreNow (persist s)` of the stopped state against the REAL state right after the real restart
+    (first snapshot of the next segment: REPEX_state.__init__ + load_paths sequence from the real restart.toml)"""
+    snaps = getattr(sm_next, "snaps", None) or []
+    loaded = [x for x in snaps if x[0] == "loaded"]
+    if not loaded or not isinstance(loaded[0][1], dict):
+        return
+    real = loaded[0][1]
+    ctx.count(1, kind="restore-model-vs-real", workers=sm_next.workers)
+    case = {"history": label, "op": "restorenow (model: restoreNow (persist s)) vs real restart from restart.toml"}
+    if model_ans.startswith("err"):
+        ctx.disagree(case, "restart loaded", model_ans)
+        return
+    md = T.parse_dump(model_ans)
+    for k in RESTORE_KEYS:
+        if not T.field_eq(k, real.get(k, "<missing>"), md.get(k, "<missing>")):
+            ctx.disagree(dict(case, field=k), real.get(k), md.get(k))
+            return
+    if real["rng"].split(":")[:2] != md["rng"].split(":")[:2]:
+        ctx.disagree(dict(case, field="rng entropy:spawned"), real["rng"], md["rng"])
+        return
+    # recorded ordinals as `pick_lock` will read them (third component of config.current.locked)
+    want = ",".join(str(int(e[2])) if len(e) > 2 else "-" for e in ((sm_prev.image or {}).get("locked") or []))
+    if md.get("locked0ord", "") != want:
+        ctx.disagree(dict(case, field="locked0ord"), want, md.get("locked0ord"))
+        return
+    if md.get("restarted") != "true" or md.get("rgenrestored") != "false":
+        ctx.disagree(dict(case, field="restarted/rgenrestored"), "true/false", f"{md.get('restarted')}/{md.get('rgenrestored')}")
 
 
 def run(ctx):
@@ -1121,6 +1217,13 @@ def run(ctx):
                                       hashseeds=hseeds)
         ctx.extra["one_worker_runs_identical"] = f"{good}/{total}"
         ctx.extra["turtle_maxop_last_digit_lines_forgiven"] = ROUNDED["lines"]
+        if not ctx.quick:
+            # thorough tier only (Monte-Carlo P: ~15 s per run): the end-to-end witness of the open observation
+            # c06_mc.SIG_MC — real scheduler, lattice engine, 15 interfaces; differences are recorded as pending
+            big = {"engine": "lattice", "mtag": "wfbig", "moves": ["sh", "sh"] + ["wf"] * 13, "seed": 3, "N": 16, "nintf": 15,
+                   "delete_old": False}
+            run_w1_families(ctx, pool, os.path.join(base, "w1mc"), [big], all_splits=[8, 14], chains=[], every=False,
+                            fresh_one=False)
         run_multi(ctx, pool, os.path.join(base, "multi"), multi)
         run_multi_fifo(ctx, pool, os.path.join(base, "fifo"), fifo)
         lat3 = {"engine": "lattice", "mtag": "wf", "moves": ["sh", "sh", "wf", "wf"], "nintf": 4, "delete_old": False}
@@ -1149,6 +1252,7 @@ def run(ctx):
     # (more workers than ensembles that can be picked at once is not a configuration: n_ens = 3 only with one worker)
     multi_engine_model(ctx, [(n, W, 10, sd) for n in ((4, 6) if ctx.quick else (3, 4, 5, 6)) for W in (1, 2, 3)
                              if W == 1 or n >= 4 for sd in ((ctx.seed,) if ctx.quick else (0, 1, ctx.seed + 2))])
+    c06_mc.run_mc(ctx)
     ctx.assumptions += [
         "interface_cap: families 'wfcap' (lattice cap 13/16 with moves sh,sh,wf,wf,sh; TurtleMD wf.toml with cap -0.1 / 0.1); "
         "all other families run without a cap",
@@ -1185,7 +1289,9 @@ def run(ctx):
 # ----------------------------------------------------------------------------- replay
 def replay(ctx, obj):
     r = obj.get("replay", obj)
-    if r.get("kind") == "multi-engine-prep":
+    if r.get("kind") == "mc-restart":
+        c06_mc.replay(ctx, r)
+    elif r.get("kind") == "multi-engine-prep":
         ctx.seed = r.get("ctxseed", ctx.seed)
         multi_engine_model(ctx, [tuple(r["params"])])
     elif r.get("kind") == "model-shape":
